@@ -177,8 +177,14 @@ def check_case(case, ctx):
     else:
         ctx.label("g(t)-integration-unresolved")
     # every line sits at its transition energy: position of the maximum within one grid point
+    # (two lines of nearly equal height: which of them is the global maximum may differ between the library and the
+    # reference within the error model, so the library's maximum must lie within one grid point of a point where the
+    # reference is within twice the allowed deviation of its own maximum)
     dw = w[1] - w[0]
-    ctx.bound("line-position", abs(w[int(numpy.argmax(numpy.real(S)))] - w[int(numpy.argmax(ref))]), 1.01 * abs(dw), where=tag)
+    ks = int(numpy.argmax(numpy.real(S)))
+    top = numpy.nonzero(ref >= float(numpy.max(ref)) - 2.0 * allowed)[0]
+    dist = float(numpy.min(numpy.abs(w[top] - w[ks])))
+    ctx.bound("line-position", dist, 1.01 * abs(dw), where=tag)
 
     # non-triviality: coupled, non-parallel dipoles, resolved lines
     fwhm = min(2.355 * math.sqrt(2 * b["reorg"] * orc.CM2INT * orc.KB_INT * T) for b in spec["bath"])
